@@ -1,17 +1,26 @@
 import Mkts.Lemmas.Coerce
 import Mkts.Lemmas.Coerce2
+import Mkts.Model.CoerceTie
 import Mkts.Model.ExceptDec
 /-!
 # C14 — writes are validated against the bucket schema
 
 `checkAndCoerce db cols` is the schema test + coercion of `WriteCSM` for one bucket (`db` = bucket
-columns, `cols` = request columns, Epoch implicit on both sides); `request` is a whole write request
-over its buckets in iteration order with the write channel (`Chan.pending` = rows queued by earlier
-failed requests); `specRequest` is the property's demand (all-or-nothing, columns matched by name,
-values converted by `convert`).
+columns, `cols` = request columns, Epoch implicit on both sides); `request v` is a whole write
+request over its buckets in iteration order with the write channel (`Chan.pending`), for the variant
+`v` of the code: `v.ordered` = columns serialised in the bucket's order, `v.atomic` = records queued
+only after every bucket passed.  `codeVariant` reads the variant off the regenerated skeleton of
+`WriteCSM`; since the repairs of C14-F8 / C14-F8b it is `⟨true, true⟩`.  `specRequest` is the
+property's demand (all-or-nothing, columns matched by name, values converted by `convert`).
 -/
 namespace Mkts.Props.C14
 open Mkts.Coerce Mkts.Bytes
+
+set_option maxRecDepth 100000 in
+/-- the CURRENT source re-orders the columns to the bucket's schema before `ToRowSeries` and calls
+    `WriteRecords` only in a second loop after the loop over the request's buckets (regenerated
+    skeleton of `WriteCSM`; a revert flips the flag, this `decide` fails and the model follows) -/
+theorem C14_code_variant : codeVariant = ⟨true, true⟩ := by decide
 
 /-- a different number of columns is rejected -/
 theorem C14_length_reject (db : List DS) (cols : List Col) (h : db.length ≠ cols.length) :
@@ -36,12 +45,24 @@ theorem C14_reject (db : List DS) (cols : List Col) (d : DS) (hd : d ∈ db) (he
     have : m.isEmpty = false := by cases m <;> simp_all
     simp [this]
 
-/-- a rejected single-bucket request queues nothing and flushes nothing -/
-theorem C14_reject_atomic (schema : String → Option (List DS)) (ch : Chan) (p : Part) (db : List DS)
-    (hs : schema p.key = some db) (hne : p.secs ≠ []) (e : Reject) (he : checkAndCoerce db p.cols = .error e) :
-    request schema ch [p] = (some e, ch, [], []) := by
-  have h1 : p.secs.isEmpty = false := by cases h : p.secs <;> simp_all
-  simp [request, writeCSMLoop, h1, hs, he]
+/-- a rejected request — ANY number of buckets, whichever of them is rejected, in whatever order the
+    map iteration visits them — leaves the write channel as it was and commits nothing -/
+theorem C14_reject_atomic (schema : String → Option (List DS)) (ch : Chan) (parts : List Part) (e : Reject)
+    (h : (request codeVariant schema ch parts).1 = some e) :
+    (request codeVariant schema ch parts).2.1 = ch ∧ (request codeVariant schema ch parts).2.2.1 = [] := by
+  rw [C14_code_variant] at h ⊢
+  unfold request at h ⊢
+  cases hl : writeCSMLoop ⟨true, true⟩ schema parts [] [] with
+  | mk r rest =>
+    obtain ⟨q, created⟩ := rest
+    cases r with
+    | none => rw [hl] at h; simp at h
+    | some e' =>
+      have hq := loop_atomic true schema parts [] [] e' (by rw [hl])
+      rw [hl] at hq
+      simp only at hq
+      subst hq
+      simp
 
 /-- the request carries exactly the bucket's shapes: accepted unchanged -/
 theorem C14_accept_same (db : List DS) (cols : List Col) (h : cols.map (·.ds) = db) :
@@ -53,48 +74,48 @@ theorem C14_accept_same (db : List DS) (cols : List Col) (h : cols.map (·.ds) =
   simp [List.foldlM]
   rfl
 
-/-- same names (in any order), other numeric types ⇒ accepted, and every request column is converted
-    to the type of the bucket column of the same NAME (`coerced`: `convert` on every value).
+/-- same SET of names (in ANY order), other numeric types ⇒ accepted, and every request column is
+    converted to the type of the bucket column of the same NAME (`coerced`: `convert` on every value).
     `Defined` excludes exactly the implementation-defined float → integer conversions and the
     non-numeric (STRING16) columns. -/
 theorem C14_coerce (db : List DS) (cols : List Col)
-    (hnames : cols.map (·.ds.name) = names db) (hnd : (epochName :: names db).Nodup)
+    (hlen : db.length = cols.length) (hnd : (epochName :: names db).Nodup) (hcn : (cols.map (·.ds.name)).Nodup)
+    (hdbc : ∀ d ∈ db, d.name ∈ cols.map (·.ds.name)) (hcdb : ∀ c ∈ cols, c.ds.name ∈ names db)
     (hdef : ∀ d ∈ db, ∀ c ∈ cols, c.ds.name = d.name → c.ds.ty ≠ d.ty → Defined d c) :
     checkAndCoerce db cols = .ok (cols.map (coerced db)) :=
-  checkAndCoerce_same_names db cols hnames hnd hdef
+  checkAndCoerce_by_name db cols hlen hnd hcn hdbc hcdb hdef
 
-/-- …and when the names are listed in the bucket's order the coerced columns carry exactly the
-    bucket's shapes in the bucket's order, so the positional serialisation of `ToRowSeries` puts every
-    value into the column of its own name -/
-theorem C14_coerce_shapes (db : List DS) (cols : List Col)
-    (hnames : cols.map (·.ds.name) = names db) (hnd : (epochName :: names db).Nodup) :
-    (cols.map (coerced db)).map (·.ds) = db :=
-  coerced_shapes db cols hnames (List.nodup_cons.mp hnd).2
+/-- …and what the repaired code serialises (`serialCols codeVariant`: the coerced columns projected
+    on the bucket's names) carries exactly the bucket's shapes in the BUCKET's order, whatever the
+    order of the request: every value is stored in the column of its own name -/
+theorem C14_serialised_in_bucket_order (db : List DS) (cols : List Col) (hnd : (epochName :: names db).Nodup)
+    (hdbc : ∀ d ∈ db, d.name ∈ cols.map (·.ds.name)) :
+    (serialCols codeVariant db (cols.map (coerced db))).map (·.ds) = db := by
+  rw [C14_code_variant]
+  exact projected_shapes db cols (List.nodup_cons.mp hnd).2 hdbc
 
-/-- the partial theorem: a single-bucket request whose column names are the bucket's, in the
-    bucket's order, is accepted, its rows are queued with the converted columns and committed
-    together with whatever was pending; the write channel is empty afterwards -/
-theorem C14_partial (schema : String → Option (List DS)) (ch : Chan) (p : Part) (db : List DS)
+/-- the full statement for one bucket of a request, for the code as it is now: columns matched by
+    name in any order are accepted, the rows are queued with the converted columns in bucket order and
+    committed together with whatever was pending; the write channel is empty afterwards -/
+theorem C14_full (schema : String → Option (List DS)) (ch : Chan) (p : Part) (db : List DS)
     (hs : schema p.key = some db) (hne : p.secs ≠ [])
-    (hnames : p.cols.map (·.ds.name) = names db) (hnd : (epochName :: names db).Nodup)
+    (hlen : db.length = p.cols.length) (hnd : (epochName :: names db).Nodup) (hcn : (p.cols.map (·.ds.name)).Nodup)
+    (hdbc : ∀ d ∈ db, d.name ∈ p.cols.map (·.ds.name)) (hcdb : ∀ c ∈ p.cols, c.ds.name ∈ names db)
     (hdef : ∀ d ∈ db, ∀ c ∈ p.cols, c.ds.name = d.name → c.ds.ty ≠ d.ty → Defined d c) :
-    request schema ch [p] =
-      (none, ⟨[]⟩, ch.pending ++ partRows p.key (p.cols.map (coerced db)) p.secs, []) := by
+    request codeVariant schema ch [p] =
+      (none, ⟨[]⟩, ch.pending ++ partRows p.key (serialCols codeVariant db (p.cols.map (coerced db))) p.secs, []) ∧
+    (serialCols codeVariant db (p.cols.map (coerced db))).map (·.ds) = db := by
   have h1 : p.secs.isEmpty = false := by cases h : p.secs <;> simp_all
-  simp [request, writeCSMLoop, h1, hs, C14_coerce db p.cols hnames hnd hdef]
+  refine ⟨?_, C14_serialised_in_bucket_order db p.cols hnd hdbc⟩
+  simp [request, writeCSMLoop, h1, hs, C14_coerce db p.cols hlen hnd hcn hdbc hcdb hdef]
 
-/-- the full statement -/
-def requestOK (schema : String → Option (List DS)) (ch : Chan) (parts : List Part) : Bool :=
-  match request schema ch parts, specRequest schema parts with
+/-! ## before the repairs (variant `⟨false, false⟩`): kept as labelled counterexamples -/
+
+def requestOK (v : Variant) (schema : String → Option (List DS)) (ch : Chan) (parts : List Part) : Bool :=
+  match request v schema ch parts, specRequest schema parts with
   | (some _, ch', committed, _), _ => decide (ch' = ch) && decide (committed = [])
   | (none, _, committed, _), some rows => decide (committed = ch.pending ++ rows)
   | (none, _, _, _), none => true
-
-/-- the full statement: a rejected request leaves the write channel as it was and commits nothing;
-    an accepted one commits what was pending plus exactly the rows the specification demands
-    (matched by name, converted); requests needing an implementation-defined conversion are exempt -/
-def C14_full : Prop :=
-  ∀ (schema : String → Option (List DS)) (ch : Chan) (parts : List Part), requestOK schema ch parts = true
 
 def nA : Str := [65]
 def nB : Str := [66]
@@ -104,39 +125,29 @@ def two32 : Bytes := [2, 0, 0, 0]
 def schemaAB : String → Option (List DS) := fun k =>
   if k = "G" then some [⟨nA, .i32⟩, ⟨nB, .i32⟩] else if k = "H" then some [⟨nB, .i32⟩] else none
 
-/-- same names in another order: accepted, stored positionally — A receives B's value
-    (reproduced: DESIGN §7 F8, corpus/C14/known_F8_reorder.ops) -/
-theorem C14_cex_reorder : ¬ C14_full := by
-  intro h
-  have := h schemaAB ⟨[]⟩ [⟨"G", [⟨⟨nB, .i32⟩, [two32]⟩, ⟨⟨nA, .i32⟩, [one32]⟩], [60]⟩]
-  revert this
-  decide
+def reordered : List Part := [⟨"G", [⟨⟨nB, .i32⟩, [two32]⟩, ⟨⟨nA, .i32⟩, [one32]⟩], [60]⟩]
+def twoBuckets : List Part := [⟨"G", [⟨⟨nA, .i32⟩, [one32]⟩, ⟨⟨nB, .i32⟩, [two32]⟩], [60]⟩,
+                               ⟨"H", [⟨⟨nA, .i32⟩, [one32]⟩, ⟨⟨nB, .i32⟩, [two32]⟩], [60]⟩]
 
-/-- what is stored / what should be stored in the reorder counterexample -/
-theorem C14_cex_reorder_values :
-    (request schemaAB ⟨[]⟩ [⟨"G", [⟨⟨nB, .i32⟩, [two32]⟩, ⟨⟨nA, .i32⟩, [one32]⟩], [60]⟩]).2.2.1 = [⟨"G", 60, two32 ++ one32⟩] ∧
-    specRequest schemaAB [⟨"G", [⟨⟨nB, .i32⟩, [two32]⟩, ⟨⟨nA, .i32⟩, [one32]⟩], [60]⟩] = some [⟨"G", 60, one32 ++ two32⟩] := by
-  decide
+/-- (before the repair of C14-F8) same names in another order were stored positionally — A received
+    B's value; the repaired variant stores what the specification demands -/
+theorem C14_before_repair_reorder :
+    requestOK ⟨false, false⟩ schemaAB ⟨[]⟩ reordered = false ∧
+    (request ⟨false, false⟩ schemaAB ⟨[]⟩ reordered).2.2.1 = [⟨"G", 60, two32 ++ one32⟩] ∧
+    specRequest schemaAB reordered = some [⟨"G", 60, one32 ++ two32⟩] ∧
+    requestOK ⟨true, true⟩ schemaAB ⟨[]⟩ reordered = true := by decide
 
-/-- one request with a valid bucket G and a mismatching bucket H, G handled first: the error is
-    returned but G's row stays queued and is committed by the next successful request
-    (reproduced: DESIGN §7 F8b, corpus/C14/known_F8b_multi.ops) -/
-theorem C14_cex_queue :
-    let parts : List Part := [⟨"G", [⟨⟨nA, .i32⟩, [one32]⟩, ⟨⟨nB, .i32⟩, [two32]⟩], [60]⟩,
-                              ⟨"H", [⟨⟨nA, .i32⟩, [one32]⟩, ⟨⟨nB, .i32⟩, [two32]⟩], [60]⟩]
-    let r := request schemaAB ⟨[]⟩ parts
+/-- (before the repair of C14-F8b) one request with a valid bucket G and a mismatching bucket H, G
+    handled first: the error was returned but G's row stayed queued and was committed by the next
+    successful request; the repaired variant queues nothing -/
+theorem C14_before_repair_queue :
+    let r := request ⟨false, false⟩ schemaAB ⟨[]⟩ twoBuckets
     r.1 = some .mismatch ∧ r.2.1.pending = [⟨"G", 60, one32 ++ two32⟩] ∧
-    (request schemaAB r.2.1 [⟨"H", [⟨⟨nB, .i32⟩, [two32]⟩], [120]⟩]).2.2.1 =
+    (request ⟨false, false⟩ schemaAB r.2.1 [⟨"H", [⟨⟨nB, .i32⟩, [two32]⟩], [120]⟩]).2.2.1 =
       [⟨"G", 60, one32 ++ two32⟩, ⟨"H", 120, two32⟩] ∧
-    -- with the other iteration order nothing is queued
-    (request schemaAB ⟨[]⟩ parts.reverse).2.1.pending = [] := by
-  decide
-
-theorem C14_cex_queue_full : ¬ C14_full := by
-  intro h
-  have := h schemaAB ⟨[]⟩ [⟨"G", [⟨⟨nA, .i32⟩, [one32]⟩, ⟨⟨nB, .i32⟩, [two32]⟩], [60]⟩,
-                          ⟨"H", [⟨⟨nA, .i32⟩, [one32]⟩, ⟨⟨nB, .i32⟩, [two32]⟩], [60]⟩]
-  revert this
+    requestOK ⟨false, false⟩ schemaAB ⟨[]⟩ twoBuckets = false ∧
+    requestOK ⟨true, true⟩ schemaAB ⟨[]⟩ twoBuckets = true ∧
+    requestOK ⟨true, true⟩ schemaAB ⟨[]⟩ twoBuckets.reverse = true := by
   decide
 
 /-! non-vacuity / sanity of the conversions -/
